@@ -320,6 +320,59 @@ func runC02(c *Ctx) {
 		}
 	})
 
+	c.rule("C02.V5", "a rollback starts at the store's tip: the block stamp rollBackToHeight begins its loop with (the height it compares with the target and the hash whose header it fetches) is built from BlockHeaders.ChainTip(), and the filter-header height it compares with from RegFilterHeaders.ChainTip() (the in-memory headerTip / headerTipHash are hints for the filter-header sync: after a headers message that added nothing they are zero / a non-tip hash, and a rollback started from them removes nothing while the new branch is appended behind the old one)", func() {
+		fn := c.fn(fnRollBack)
+		tip := bhs("ChainTip")
+		ftip := c.method("headerfs", "FilterHeaderStore", "ChainTip")
+		stampT := c.P.Named("headerfs", "BlockStamp")
+		hF := c.field("headerfs", "BlockStamp", "Height")
+		hashF := c.field("headerfs", "BlockStamp", "Hash")
+		fromTip := func(v ssa.Value) bool { return ir.InfluencedBy(v, valIsCallTo(tip)) }
+		n, okv := 0, true
+		var sites []string
+		ir.Instrs(fn, func(in ssa.Instruction) {
+			al, ok := in.(*ssa.Alloc)
+			if !ok || stampT == nil || !types.Identical(al.Type().Underlying().(*types.Pointer).Elem(), stampT) || ir.LoopHeaderOf(al.Block()) != nil {
+				return
+			}
+			n++
+			sites = append(sites, c.at(in))
+			seenH, seenHash := false, false
+			ir.Instrs(fn, func(x ssa.Instruction) {
+				st, ok := x.(*ssa.Store)
+				if !ok {
+					return
+				}
+				fa, ok := st.Addr.(*ssa.FieldAddr)
+				if !ok || fa.X != ssa.Value(al) {
+					return
+				}
+				switch ir.FieldOfAddr(fa) {
+				case hF:
+					seenH = true
+					if !fromTip(st.Val) {
+						okv = false
+					}
+				case hashF:
+					seenHash = true
+					if !fromTip(st.Val) {
+						okv = false
+					}
+				}
+			})
+			if !seenH || !seenHash {
+				okv = false
+			}
+		})
+		c.verdict(okv && n >= 1, c.nm(fn)+" | the rollback's starting stamp is the store's chain tip", c.P.Pos(fn.Pos()), "BlockStamp{Height, Hash} built from BlockHeaders.ChainTip()", "the block stamp rollBackToHeight starts from is not built (height and hash) from BlockHeaders.ChainTip(): a stale in-memory tip makes the rollback remove the wrong headers or none", sites...)
+		mem := 0
+		for _, f := range []string{"headerTip", "headerTipHash"} {
+			mem += len(accessesOf(fn, c.field("neutrino", "blockManager", f), nil))
+		}
+		c.verdict(mem == 0, c.nm(fn)+" | does not consult the in-memory header tip", c.P.Pos(fn.Pos()), "no access to headerTip / headerTipHash", fmt.Sprintf("rollBackToHeight reads or writes the in-memory headerTip / headerTipHash (%d access(es)): they are not a reliable image of the store's tip", mem))
+		c.verdict(len(find(fn, callTo(ftip))) >= 1, c.nm(fn)+" | filter-header height read from RegFilterHeaders.ChainTip()", c.P.Pos(fn.Pos()), "RegFilterHeaders.ChainTip()", "rollBackToHeight no longer reads the filter-header store's tip")
+	})
+
 	c.rule("C02.W1", "rollBackToHeight is called only from handleHeadersMsg", func() {
 		rollM := c.method("neutrino", "blockManager", "rollBackToHeight")
 		c.whoMay("blockManager.rollBackToHeight", callTo(rollM), []string{fnHandleHeaders}, 2)
